@@ -239,3 +239,209 @@ PIPE = {}
 for cls, dwf, dwt, tier in (("AXIDownConverter", 32, 16, "quick"), ("AXIDownConverter", 16, 8, "quick"), ("AXIUpConverter", 16, 32, "quick"),
                             ("AXIDownConverter", 32, 8, "quick"), ("AXIUpConverter", 8, 32, "quick"), ("AXIDownConverter", 64, 32, "quick")):
     PIPE[f"{cls}({dwf}->{dwt})[rd,rd in flight]"] = (tier, dict(cls=cls, dwf=dwf, dwt=dwt))
+
+
+# ---------------------------------------------------------------------------------------------------------------------
+# two WRITE bursts streamed through the converters: the master offers AW1 as soon as AW0 is taken and the W beats of the second burst
+# right behind those of the first (no idle W cycle, no waiting for B), the slave takes AW / W and returns the two B at will
+# ---------------------------------------------------------------------------------------------------------------------
+from checks.c10_conv import ConvHarness
+
+
+class PipeWriteHarness(ConvHarness):
+    """env = (pair, m_aw, m_w, s_aws, s_buf, s_dec, s_b, m_b)
+         m_aw  (AWs of the master accepted 0..2, next one being offered 0/1);  m_w (master W beats accepted over both bursts, next being held 0/1)
+         s_aws slave-side AWs accepted (addr, len, size, burst, id), in order;  s_buf slave-side W beats accepted and not yet decoded
+         s_dec (slave-side burst being decoded 0..2, beats of it decoded, (address, byte) pairs matched)
+         s_b   (B responses the slave has handed to the DUT, the next one being offered 0/1);  m_b B responses the master has received"""
+    conf_first = 12
+    conf_every = 41
+    cap = 1_500_000
+    live_queries = (("live.stuck", COOP, PROGRESS, (),
+                     "master and slave offer and accept everything, the writes are not finished, no handshake ever happens"),)
+
+    def __init__(self, name, cls, dwf, dwt):
+        ConvHarness.__init__(self, name, cls, dwf, dwt, "w", sideband=True)
+        self.cov = dict(pairs=0, s_w_beats=0, w_next_burst_offered_in_the_cycle_the_previous_burst_ends_at_the_slave=0, second_aw_before_first_b=0, finished=0)
+
+    def set_group(self, g):
+        self.group = list(g)
+        self.cov["pairs"] += len(self.group)
+
+    def env_init(self):
+        return (None, (0, 0), (0, 0), (), (), (0, 0, 0), (0, 0), 0)
+
+    def nbeats(self, pair):
+        return pair[0][1] + 1, pair[0][1] + 1 + pair[1][1] + 1
+
+    def choices(self, env):
+        pair, m_aw, m_w, s_aws, s_buf, s_dec, s_b, m_b = env
+        if pair is None:
+            return [("pair",) + tuple(g) for g in self.group]
+        if m_b == 2:
+            return [("end",)]
+        n_aw, off = m_aw
+        k, hold = m_w
+        n0, ntot = self.nbeats(pair)
+        aw_v = ((1,) if off else (0, 1)) if n_aw < 2 else (0,)
+        burst_of_k = 0 if k < n0 else 1
+        w_v = ((1,) if hold else (0, 1)) if (k < ntot and n_aw > burst_of_k) else (0,)      # a burst's data only after its address was taken
+        aw_r = (0, 1) if len(s_aws) < 2 else (0,)
+        owed = s_dec[0] - s_b[0]
+        b_v = ((1,) if s_b[1] else (0, 1)) if owed > 0 else (0,)
+        return list(itertools.product(aw_v, w_v, (0, 1), aw_r, (0, 1), b_v))
+
+    def drive(self, v, env, ch):
+        pair, m_aw, m_w, s_aws, s_buf, s_dec, s_b, m_b = env
+        M, S = self.M, self.S
+        for itf in (M, S):
+            itf_ar, itf_r = itf["ar"], itf["r"]
+        v[M["ar"]["valid"]] = 0
+        v[M["r"]["ready"]] = 0
+        v[S["ar"]["ready"]] = 0
+        v[S["r"]["valid"]] = 0
+        if pair is None or ch[0] in ("pair", "end"):
+            aw_v, w_v, b_r, aw_r, w_r, b_v = 0, 0, 1, 0, 0, 0
+        else:
+            aw_v, w_v, b_r, aw_r, w_r, b_v = ch
+        self._ax(v, M["aw"], aw_v, pair[m_aw[0]] if aw_v else None, True)
+        X = M["w"]
+        v[X["valid"]] = w_v
+        if w_v:
+            n0, ntot = self.nbeats(pair)
+            k = m_w[0]
+            bi, j = (0, k) if k < n0 else (1, k - n0)
+            data, strb, last = self.info(pair[bi]).wbeats[j]
+            v[X["data"]], v[X["strb"]], v[X["last"]] = data, strb, last
+        else:
+            v[X["data"]], v[X["strb"]], v[X["last"]] = (1 << self.dwf) - 1, (1 << self.mb) - 1, 1
+        v[M["b"]["ready"]] = b_r
+        v[S["aw"]["ready"]] = aw_r
+        v[S["w"]["ready"]] = w_r
+        X = S["b"]
+        v[X["valid"]] = b_v
+        if b_v:
+            v[X["id"]], v[X["resp"]] = s_aws[s_b[0]][4], OKAY
+        else:
+            v[X["id"]], v[X["resp"]] = (1 << IDW) - 1, 3
+
+    def observe(self, v, env, ch):
+        pair, m_aw, m_w, s_aws, s_buf, s_dec, s_b, m_b = env
+        M, S = self.M, self.S
+        if pair is None or ch[0] == "end":
+            for nm, X in (("aw", S["aw"]), ("w", S["w"]), ("b", M["b"])):
+                if v[X["valid"]]:
+                    return env, (nm + ".spurious", f"{nm}.valid=1 while no write is outstanding"), 0
+            if pair is None:
+                return ((tuple(ch[1]), tuple(ch[2])),) + self.env_init()[1:], None, 0
+            self.cov["finished"] += 1
+            return self.env_init(), None, 0
+        aw_v, w_v, b_r, aw_r, w_r, b_v = ch
+        n_aw, off = m_aw
+        k, hold = m_w
+        n0, ntot = self.nbeats(pair)
+        prog, coop = False, True
+        # master AW
+        if aw_v:
+            if v[M["aw"]["ready"]]:
+                n_aw, off, prog = n_aw + 1, 0, True
+                if n_aw == 2 and m_b == 0:
+                    self.cov["second_aw_before_first_b"] += 1
+            else:
+                off = 1
+        elif n_aw < 2:
+            coop = False
+        # slave AW
+        X = S["aw"]
+        if v[X["valid"]] and aw_r:
+            if len(s_aws) >= 2:
+                return env, ("aw.extra", "a third AW is offered to the slave"), 0
+            cap, err = self._capture(v, X, pair[len(s_aws)], "aw")
+            if err:
+                return env, err, 0
+            s_aws = s_aws + (cap,)
+            prog = True
+        if len(s_aws) < 2 and not aw_r:
+            coop = False
+        # slave W (accepted beats are queued, then decoded against the slave-side AW they belong to)
+        X = S["w"]
+        s_w_last_now = False
+        if v[X["valid"]] and w_r:
+            s_buf = s_buf + ((v[X["data"]], v[X["strb"]], v[X["last"]]),)
+            s_w_last_now = bool(v[X["last"]])
+            prog = True
+        if not w_r:
+            coop = False
+        j, nb, pos = s_dec
+        while s_buf and j < len(s_aws):
+            if j >= 2:
+                return env, ("w.extra", "the slave receives W beats after both bursts were completed"), 0
+            pos, err = self._decode_w(pair[j], self.info(pair[j]), s_aws[j], nb, s_buf[0], pos)
+            if err:
+                return env, (err[0], f"(burst {j+1} of 2 streamed) " + err[1]), 0
+            last = s_buf[0][2]
+            s_buf = s_buf[1:]
+            nb += 1
+            if last:
+                j, nb, pos = j + 1, 0, 0
+        if len(s_buf) > 4:
+            return env, ("w.extra", "the slave has received more W beats than any announced burst accounts for"), 0
+        # master W
+        if w_v:
+            if v[M["w"]["ready"]]:
+                if k == n0 and s_w_last_now:
+                    self.cov["w_next_burst_offered_in_the_cycle_the_previous_burst_ends_at_the_slave"] += 1
+                k, hold, prog = k + 1, 0, True
+            else:
+                hold = 1
+        elif k < ntot and n_aw > (0 if k < n0 else 1):
+            coop = False
+        # slave B
+        nb_given, b_off = s_b
+        if b_v:
+            if v[S["b"]["ready"]]:
+                nb_given, b_off, prog = nb_given + 1, 0, True
+            else:
+                b_off = 1
+        elif j - nb_given > 0:
+            coop = False
+        # master B
+        X = M["b"]
+        if v[X["valid"]]:
+            if m_b >= 2:
+                return env, ("b.extra", "a third B response reaches the master"), 0
+            done_beats = n0 if m_b == 0 else ntot
+            if k < done_beats:
+                return env, ("b.early", f"B of burst {m_b+1} reaches the master after {k} of its {done_beats} W beats were accepted"), 0
+            if b_r:
+                if v[X["id"]] != pair[m_b][4]:
+                    return env, ("b.id", f"B {m_b+1} carries id {v[X['id']]}, burst {m_b+1} was sent with id {pair[m_b][4]}"), 0
+                m_b, prog = m_b + 1, True
+        if not b_r:
+            coop = False
+        flags = (COOP if coop else 0) | (PROGRESS if prog else 0)
+        return (pair, (n_aw, off), (k, hold), s_aws, s_buf, (j, nb, pos), (nb_given, b_off), m_b), None, flags
+
+    def cover_report(self):
+        return dict(self.cov)
+
+    def vacuity(self):
+        if not self.cov["finished"]:
+            return "no pair of writes ever completed"
+        if not self.cov["second_aw_before_first_b"]:
+            return "the second AW was never accepted before the first B"
+        return None
+
+
+def wpairs(dwf, dwt):
+    out = []
+    for p in pairs(dwf, dwt)[::2]:
+        (a0, l0, s0, t0, i0, r0), (a1, l1, s1, t1, i1, r1) = p
+        out.append(((a0, l0, s0, t0, i0, OKAY), (a1, l1, s1, t1, i1, OKAY)))
+    return out
+
+
+PIPEW = {}
+for cls, dwf, dwt, tier in (("AXIUpConverter", 16, 32, "quick"), ("AXIUpConverter", 8, 32, "quick"), ("AXIDownConverter", 32, 16, "quick"),
+                            ("AXIDownConverter", 16, 8, "quick"), ("AXIUpConverter", 32, 64, "thorough"), ("AXIDownConverter", 64, 32, "thorough")):
+    PIPEW[f"{cls}({dwf}->{dwt})[wr,wr streamed]"] = (tier, dict(cls=cls, dwf=dwf, dwt=dwt))
